@@ -1066,3 +1066,56 @@ class Region(object):
       return ~self.simplify_b(b.args[0])
     parts = [self.simplify_b(x) for x in b.args]
     return band(*parts) if k == 'and' else bor(*parts)
+
+
+# ------------------------------------------------------------ definedness (finite results)
+
+FN_DOMAIN = {
+    'log': lambda args: args[0] > 0,
+}
+
+
+def _domain(a):
+  if a.name in FN_DOMAIN:
+    return FN_DOMAIN[a.name](a.args)
+  if a.name.startswith('root') and a.name[4:].isdigit():
+    return a.args[0] >= 0
+  return TRUE
+
+
+def defined(p, memo=None):
+  """Formula under which the value of p is a finite real: every reciprocal that can reach the
+  value has a non-zero argument (reciprocals under a tf.where / divide_no_nan guard only count on
+  their branch), function arguments are in their domains, no poison value is involved."""
+  if memo is None:
+    memo = {}
+  parts = []
+  for i in P.lift(p).atoms():
+    parts.append(_defined_atom(ATOMS[i], memo))
+  return ball(parts)
+
+
+def _defined_b(b, memo):
+  return ball([defined(q, memo) for q in b.polys()])
+
+
+def _defined_atom(a, memo):
+  r = memo.get(a.id)
+  if r is not None:
+    return r
+  k = a.kind
+  if k == 'var':
+    r = FALSE if a.id in POISON else TRUE
+  elif k in ('max', 'min', 'abs'):
+    r = ball([defined(x, memo) for x in a.args])
+  elif k == 'inv':
+    r = band(defined(a.args[0], memo), a.args[0].ne(0))
+  elif k == 'ite':
+    c = a.args[0]
+    r = band(_defined_b(c, memo), c.implies(defined(a.args[1], memo)), (~c).implies(defined(a.args[2], memo)))
+  elif k == 'fn':
+    r = band(ball([defined(x, memo) for x in a.args]), _domain(a))
+  else:
+    r = TRUE
+  memo[a.id] = r
+  return r
